@@ -212,6 +212,27 @@ def c10(ctx):
     ctx.exhaustive = False
 
 
+def system_follower(ctx):
+    """beyond the properties: the SYSTEM of spec/ProfileFollower.tla (CommandPID following GetterFromHistory over a MotionProfile)"""
+    q = ctx.tier == "quick"
+    cfg = cfg_text(spec="FSpec", constants={"Rich": False, "Emit": True, "MaxSteps": 5 if q else 7}, invariants=["FLaws", "FEmit"], constraints=["FSmall"])
+    r = tlc_ok(run_tlc(ctx, "ProfileFollower", cfg, "follower", 4, timeout=3000))
+    if r["n"] == 0:
+        raise ToolError("ProfileFollower emitted no behaviours")
+    bindir = build_harness(["profile"])
+    mism, fsum, _ = run_bin(bindir, "profile", ["replay", r["behaviours"], ctx.seed, "--mode", "follower"], timeout=3000)
+    ctx.extra["profile_follower_system"] = fsum
+    for m in mism[:10]:
+        ctx.beyond_property("ProfileFollower.tla (command PID following a motion profile through GetterFromHistory), behaviour #%d: %s; expected %s, got %s "
+                            "(concretisation %s)" % (m["line"], m["what"], json.dumps(m["exp"])[:200], json.dumps(m["got"])[:200], json.dumps(m["conc"])))
+    ctx.notes.append("beyond the properties: ProfileFollower.tla composes the reference trapezoid (MotionProfile.tla), the following rule and the CommandPID "
+                     "machine (PIDMath.tla) into the system 'controller follows a motion profile'; TLC checks that the controller always pursues the "
+                     "profile's command of the current time and is silent for exactly kind-many samples after every change of command; %d behaviours "
+                     "replayed on the real MotionProfile + GetterFromHistory + CommandPID (bit for bit against a controller handed the same commands "
+                     "through set, within 2^-16 against the specification), %d deviations (EXTRA-DEVIATION notes, not violations)" % (
+                         fsum.get("behaviours", 0), fsum.get("mismatches", 0)))
+
+
 @register("C11")
 def c11(ctx):
     p = (dict(exh_narrow=0, exh_wide=4, sim_num=600, sim_depth=14, rich=False, n_random_concs=2) if ctx.tier == "quick" else
@@ -219,6 +240,7 @@ def c11(ctx):
     mism, summary, total = run_streams(ctx, ["CmdPID", "CmdPIDF"], **p)
     replay_under(ctx, ["std_nocheck"])      # command equality must not depend on dimension checking
     stream_traces(ctx, ["CmdPID"], 300 if ctx.tier == "quick" else 5000)
+    system_follower(ctx)
     finish_streams(ctx, summary, total,
                    "Events: present state sample, absent, two error identities, set(command) with same / other kind / other "
                    "value, for initial commands of all three kinds with distinct gain triples per kind. Non-trivial = a present "
